@@ -11,6 +11,7 @@ C19 driver. Graph tokens: `<edges> <biases>`; edges = comma list of `a:b:num/den
  imp  <edges> <nbiases>            → `~b_k` cumulative selection boundaries (k = 0..E-2); `uniform` when Σ|J| = 0
  kern <kind spin|edge|worm> <edges> <biases> <beta> <imp>
       → `~K(a,b)` for all states a, b (binary counting order, spin 0 = most significant)
+ api <edges> <biases> <beta> <ops> <words>  → `<state> <energy>` after every public call (see c19.rs), verdict
  rd <sorted list>                   → `remove_doubles` (values of odd multiplicity)
  energy <edges> <biases> <state>   → `<get_energy> <edge-list energy>`
 -/
@@ -33,6 +34,43 @@ def trajLoop (ch : Rat → Rat) (g : Sampler) (ns ne nw : Option Nat) (basic : B
     let x' := doTimeStep ch g ns ne nw basic x
     let e := getEnergy g.bm g.biases x'.1
     trajLoop ch g ns ne nw basic k x' (s!"{showBits x'.1} {showRat e}" :: acc)
+
+/-- state of the `api` scenario: sampler options, spins, rng -/
+structure ApiSt where
+  imp : Bool := false
+  s : List Bool := []
+  rs : RS
+
+/-- one public call; returns the new state and whether the call consumed the sampler (`G`) -/
+def apiOp (edges : List Edge) (biases : List Rat) (ch : Rat → Rat) (a : ApiSt) (op : String) : ApiSt × Bool :=
+  let head := (op.take 1).toString
+  let rest := (op.drop 1).toString
+  if head == "W" then ({ a with s := parseBits rest }, false)
+  else if head == "N" then
+    -- `make_random_spin_state`: one `gen::<bool>()` per site
+    let (s, rs) := (List.range biases.length).foldl
+      (fun (acc : List Bool × RS) _ => let (b, r) := acc.2.genStdBool; (acc.1 ++ [b], r)) ([], a.rs)
+    ({ a with s, rs }, false)
+  else if head == "S" then ({ a with s := parseBits rest }, false)
+  else if head == "I" then ({ a with imp := rest == "1" }, false)
+  else if head == "T" then
+    match rest.splitOn ":" with
+    | [_, ns, ne, nw, basic] =>
+      let g := Sampler.new edges biases a.imp
+      let x := doTimeStep ch g (parseOptNat ns) (parseOptNat ne) (parseOptNat nw) (basic == "1") (a.s, a.rs)
+      ({ a with s := x.1, rs := x.2 }, false)
+    | _ => (a, false)
+  else if head == "G" then (a, true)
+  else (a, false)   -- E, Q, C, D: pure reads / clone
+
+def apiRun (edges : List Edge) (biases : List Rat) (ch : Rat → Rat) :
+    List String → ApiSt → List String → List String × RS
+  | [], a, acc => (acc.reverse, a.rs)
+  | op :: ops, a, acc =>
+    let (a', consumed) := apiOp edges biases ch a op
+    let bm := bindingMat edges biases.length
+    let out := if consumed then s!"{showBits a'.s} -" else s!"{showBits a'.s} {showRat (getEnergy bm biases a'.s)}"
+    apiRun edges biases ch ops a' (out :: acc)
 
 def step (toks : List String) : String :=
   match toks with
@@ -75,6 +113,11 @@ def step (toks : List String) : String :=
     String.intercalate " " (sts.flatMap fun a =>
       let r := rowOf a
       sts.map fun b => showApprox (rowProb r b))
+  | ["api", edges, biases, beta, ops, words] =>
+    let es := parseEdges edges
+    let bs := parseRats biases
+    let (outs, rs') := apiRun es bs (chOf (parseRat beta)) (ops.splitOn ",") { rs := RS.ofScript (parseNats words) } []
+    if rs'.panicked then "PANIC" else String.intercalate " " (outs ++ [rs'.verdict])
   | ["rd", l] => showNats (removeDoubles (parseNats l))
   | ["energy", edges, biases, state] =>
     let g := Sampler.new (parseEdges edges) (parseRats biases) false
